@@ -113,7 +113,8 @@ func (m *monitor) timerReset(n *node, h uint32, v byte, d interface{ Nanoseconds
 	m.tick("C10")
 	if d.Nanoseconds() < 0 {
 		sig := "negative-duration"
-		if int(n.d.ViewNumber) >= 30 {
+		// timePerBlock << (view+2) does not fit int64: the back-off shift itself overflowed
+		if sh := uint(n.d.ViewNumber) + 2; sh >= 63 || int64(n.tpb) >= (int64(1)<<62)>>(sh-1) {
 			sig = "negative-duration/shift-overflow"
 		}
 		m.nhit(n, "C10", sig, fmt.Sprintf("node %d armed timer (%d,%d) with negative duration %d", n.id, h, v, d.Nanoseconds()))
@@ -555,6 +556,7 @@ func (m *monitor) before(n *node, desc string) {
 		t.inadmissible = classifyInadmissible(n, desc)
 		if t.inadmissible != "" {
 			t.fpBefore = n.fpString()
+			fmt.Fprintf(n.w, "TAG inadmissible:%s\n", strings.SplitN(t.inadmissible, "+", 2)[0])
 		}
 	}
 }
